@@ -77,6 +77,10 @@ void ProbeUtilities() {
   struct ThrowingInit { ThrowingInit(int) {} ThrowingInit(ThrowingInit&&) noexcept {} ThrowingInit& operator=(ThrowingInit&&) noexcept { return *this; } };
   ThreadLocal<ThrowingInit, ThreadLocalSlot<Slotted, 7>> ti{1};
   ti.Initialize(2); (void)ti.Get(); ti.Clear();
+  // initialisers passed as NON-const lvalues: the slot is initialised from a copy, the caller's object is left alone
+  std::string shared_default{"d"};
+  ThreadLocal<std::string, ThreadLocalSlot<Slotted, 8>> tl8{shared_default};
+  tl8.Initialize(shared_default); (void)tl8.Get(); tl8.Clear();
   ThreadLocal<int> a{1};
   ThreadLocal<std::string, ThreadLocalTypeSlot<Slotted>> b{"x"};
   ThreadLocal<int, ThreadLocalIndexSlot<3>> c;
